@@ -3,6 +3,7 @@ package main
 import (
 	"fmt"
 	"math"
+	"net/http"
 	"os"
 	"path/filepath"
 	"sort"
@@ -130,6 +131,11 @@ var c01Exprs = []string{"-s1", "n1 / z", "n1 % z", "f1 / 0.0", "n1 ^ n2", "big ^
 	"npst in lst", "holder.T|default:\"d\"", "npst|default_if_none:\"n\"", "npst|safe", "npst|escape", "npst + 1", "not npst", "nptm|time:\"15\"", "nptm < nptm", "npst|stringformat:\"%v\"",
 	"not (lst in ifm)", "up == up", "pm == pm", "sk == sk", "am == am", "ifm == ifm", "up in nil1", "nil1 in nil1"}
 
+// references to names that exist but are not readable templates
+var c01DirRefs = []string{"{% include \"partials\" %}", "{% include d %}", "{% include dd if_exists %}", "{% include \"partials\" if_exists %}", "{% extends \"partials\" %}", "{% import \"partials\" m %}",
+	"{% ssi \"partials\" %}", "{% ssi \"partials\" parsed %}", "{% include \"\" %}", "{% include e %}", "{% include dot %}", "{% include up %}", "{% include \".\" %}", "{% extends \"\" %}",
+	"{% import \".\" m %}", "{% ssi \"..\" parsed %}", "FILE:partials", "FILE:", "FILE:.", "FILE:partials/sub", "{% include \"partials/x.tpl\" %}{% include \"ok.tpl\" %}", "{% include \"partials/sub\" only %}"}
+
 func runC01(r *run) {
 	rg := newRng(r.seed)
 	var cases []caseT
@@ -208,7 +214,8 @@ func runC01(r *run) {
 		// grid of arguments around the byte and character counts
 		for _, f := range []string{"truncatechars", "truncatechars_html", "truncatewords", "truncatewords_html", "urlizetrunc", "center", "ljust", "rjust", "wordwrap", "get_digit", "floatformat", "linenumbers", "urlize", "slice"} {
 			for _, v := range []string{"uurl", "wurl", "emo", "s1", "s2"} {
-				for _, n := range []string{"0", "1", "2", "3", "4", "5", "20", "40", "60", "63", "64", "68", "90", "117", "120", "-1", "\"2:5\"", "\"-3:\""} {
+				for _, n := range []string{"0", "1", "2", "3", "4", "5", "20", "40", "60", "63", "64", "68", "90", "117", "120", "-1", "\"2:5\"", "\"-3:\"",
+					"9223372036854775807", "9223372036854775806", "9223372036854775805", "4611686018427387904", "-9223372036854775807", "2147483647", "2147483648", "n1", "n2"} {
 					src := "{{ " + v + "|" + f + ":" + n + " }}"
 					cases = append(cases, caseT{"gototal", append(w.args(src, nil), xf, xt, "0")})
 					cases = append(cases, caseT{"gototal", append(w.args(src, nil), xf, xt, "1")})
@@ -264,6 +271,11 @@ func runC01(r *run) {
 				cases = append(cases, caseT{"opthist", append(w.args(src, nil), xf, xt, fmt.Sprint(hi*16+hist))})
 			}
 		}
+		// (i) names that a loader can open but not read (directories), empty and odd names, through
+		// every referring tag and every loader pongo2 ships
+		for i := 0; i < 4*len(c01DirRefs); i++ {
+			cases = append(cases, caseT{"realdir", []string{fmt.Sprint(i)}})
+		}
 		// (c) the recorded finding: cyclic references between templates
 		for _, fs := range []map[string]string{
 			{"a.tpl": "{% include \"a.tpl\" %}"},
@@ -307,6 +319,12 @@ func runC01(r *run) {
 					continue
 				}
 				r.stats["panicmsg:"+res[i].reject]++
+				if c.op == "realdir" {
+					var ri int
+					fmt.Sscanf(c.args[0], "%d", &ri)
+					r.reject(id, "compile/execute did not return: "+cls, map[string]any{"source": c01DirRefs[(ri/4)%len(c01DirRefs)], "loader": []string{"LocalFilesystemLoader", "SandboxedFilesystemLoader", "FSLoader", "HttpFilesystemLoader"}[ri%4], "op": c.op, "observed": cls, "message": res[i].reject})
+					continue
+				}
 				r.reject(id, "compile/execute did not return: "+cls, map[string]any{"source_hex": c.args[0], "files": c.args[2], "context": c.args[1], "op": c.op, "observed": cls, "message": res[i].reject})
 			}
 		}
@@ -316,6 +334,10 @@ func runC01(r *run) {
 }
 
 func execC01(r *run, c caseT) {
+	if c.op == "realdir" {
+		execRealDir(r, c)
+		return
+	}
 	w, src, ctx := worldFromArgs(c.args)
 	switch c.op {
 	case "cyclic":
@@ -384,5 +406,59 @@ func execC01(r *run, c caseT) {
 		if o.panicked != nil {
 			r.reject(id, "panic: "+fmt.Sprint(o.panicked), nil)
 		}
+	}
+}
+
+func execRealDir(r *run, c caseT) {
+	var i int
+	fmt.Sscanf(c.args[0], "%d", &i)
+	dir := filepath.Join(r.outdir, "realdir")
+	must(os.MkdirAll(filepath.Join(dir, "partials", "sub"), 0o755))
+	must(os.WriteFile(filepath.Join(dir, "partials", "x.tpl"), []byte("X"), 0o644))
+	must(os.WriteFile(filepath.Join(dir, "ok.tpl"), []byte("ok"), 0o644))
+	var l pongo2.TemplateLoader
+	switch i % 4 {
+	case 0:
+		l = pongo2.MustNewLocalFileSystemLoader(dir)
+	case 1:
+		sl, err := pongo2.NewSandboxedFilesystemLoader(dir)
+		must(err)
+		l = sl
+	case 2:
+		l = pongo2.NewFSLoader(os.DirFS(dir))
+	case 3:
+		hl, err := pongo2.NewHttpFileSystemLoader(http.Dir(dir), "")
+		must(err)
+		l = hl
+	}
+	src := c01DirRefs[(i/4)%len(c01DirRefs)]
+	obs := "ok"
+	var pmsg any
+	func() {
+		defer func() {
+			if p := recover(); p != nil {
+				obs, pmsg = "panic", p
+			}
+		}()
+		set := pongo2.NewSet("realdir", l)
+		var tpl *pongo2.Template
+		var err error
+		if strings.HasPrefix(src, "FILE:") {
+			tpl, err = set.FromFile(src[5:])
+		} else {
+			tpl, err = set.FromString(src)
+		}
+		if err != nil {
+			obs = "cerr"
+			return
+		}
+		if _, err = tpl.Execute(pongo2.Context{"d": "partials", "dd": "partials/sub", "e": "", "dot": ".", "up": ".."}); err != nil {
+			obs = "xerr"
+		}
+	}()
+	id := r.emit(c.op, c.args, obs)
+	r.nontrivial("realdir" + c.args[0])
+	if pmsg != nil {
+		r.reject(id, "panic: "+fmt.Sprint(pmsg), map[string]any{"source": src, "loader": i % 4})
 	}
 }
